@@ -82,6 +82,9 @@ func (gowrapSuite) Run(h map[string]string, ops []string) []string {
 }
 
 func runGoScenario(m map[string]string) string {
+	// helpers leaked by EARLIER scenarios (a defect already reported there) must not be charged to this one, nor make
+	// every later scenario wait out its grace period
+	leakedBefore := helperGoroutines()
 	fs := parseFunc(m["out"], 0, false)
 	ctxMode, via := m["ctx"], m["via"]
 	finish := m["finish"] != "0"
@@ -113,11 +116,16 @@ func runGoScenario(m map[string]string) string {
 		if via == "timeout" {
 			cfg.Execution.Timeout = 3 * time.Millisecond
 		}
-		if m["lost"] == "1" {
-			cfg.General.GoLostErrors = lostCb
-		}
 		cfg.General.Disabled = m["dis"] == "1"
-		c = circuit.NewCircuitFromConfig("g", cfg)
+		// GoLostErrors reaches the circuit from a LOWER configuration layer (a manager's default constructor) than the
+		// one that carries Disabled / the timeout
+		mgr := &circuit.Manager{}
+		if m["lost"] == "1" {
+			mgr.DefaultCircuitProperties = append(mgr.DefaultCircuitProperties, func(string) circuit.Config {
+				return circuit.Config{General: circuit.GeneralConfig{GoLostErrors: lostCb}}
+			})
+		}
+		c = mgr.MustCreateCircuit("g", cfg)
 	}
 	ctx, cancel := context.WithCancel(context.Background())
 	defer cancel()
@@ -224,13 +232,13 @@ func runGoScenario(m map[string]string) string {
 			mu.Lock()
 			nl := len(lost)
 			mu.Unlock()
-			if helperGoroutines() == 0 && (m["lost"] != "1" || nl > 0 || r.isPanic || callerIsFn(r.err, r.isPanic, fs)) {
+			if helperGoroutines() <= leakedBefore && (m["lost"] != "1" || nl > 0 || r.isPanic || callerIsFn(r.err, r.isPanic, fs)) {
 				leak = "0"
 				break
 			}
 			time.Sleep(2 * time.Millisecond)
 		}
-		if leak == "1" && helperGoroutines() == 0 {
+		if leak == "1" && helperGoroutines() <= leakedBefore {
 			leak = "0"
 		}
 	}
@@ -269,7 +277,7 @@ func runGoScenario(m map[string]string) string {
 		case <-resCh:
 		case <-time.After(5 * time.Second):
 		}
-		for d := time.Now().Add(time.Second); time.Now().Before(d) && helperGoroutines() > 0; {
+		for d := time.Now().Add(time.Second); time.Now().Before(d) && helperGoroutines() > leakedBefore; {
 			time.Sleep(5 * time.Millisecond)
 		}
 	}
